@@ -58,6 +58,13 @@ def scenarios(rng, quick):
             for paths, opts, cls in (([b'missing', b'v1'], ['r'], 'tdir_absent_missing_source'), ([b'v1', b'vd'], [], 'tdir_absent_dir_without_recursive'), ([b'v1', b'v[1'], ['r', 'glob'], 'tdir_absent_bad_glob'),
                                      ([b'v1', b'nomatch*'], ['r', 'glob'], 'tdir_absent_empty_glob'), ([], ['r'], 'tdir_absent_no_source')):
                 sc = base(driver, 'absent'); sc.opts = opts; sc.tdir = td; sc.paths = paths; sc.cls = cls; out.append(sc)
+        # --glob: ONE pattern that expands to several sources, destination not a directory (existing file / new name / dangling link)
+        for destk in ('absent', 'file', 'dangling'):
+            for pat in (b'v?', b'v*'):
+                sc = base(driver, 'absent' if destk == 'dangling' else destk); sc.opts = ['r', 'glob']; sc.paths = [pat, b'DEST']; sc.cls = 'glob_expands_multi_to_nondir'
+                if destk == 'dangling':
+                    sc.l(b'/W/DEST', b'nowhere')
+                out.append(sc)
         # single-source classes
         sc = base(driver, 'file'); sc.opts = ['r']; sc.paths = [b'vd', b'DEST']; sc.cls = 'dir_onto_file_single'; out.append(sc)
         sc = base(driver); sc.opts = ['r']; sc.paths = [b'DEST']; sc.cls = 'no_source'; out.append(sc)
